@@ -91,6 +91,10 @@ void Scheduler::RunLoop() {
       AdvanceTime();
     }
     WakeUpNeeded();
+    if (_queue.Empty()) {
+      // only stale empty buckets of fibers that were notified before their deadline were left in _sleep_list
+      continue;
+    }
     auto* next = GetNext();
     sCurrent = next;
     TickTime();
